@@ -781,6 +781,62 @@ def c01n(ctx):
                              "the callees that chunk did not check are never re-verified" % nm)
 
 
+def c01o(ctx):
+    """Before a stale node is repaired, its transitive firewalls are repaired first — by the callers that are
+    responsible for it: the user's own query and a firewall repair (a firewall has firewalls below it too).  Queries
+    made by an executing node rely on that node's repairer having done it."""
+    prog = ctx.prog
+    o = ctx.ob("C01.o", "query_for/firewalls-repaired-first-for-user-and-firewall-repair", "K4",
+               "query_for repairs the node's transitive firewalls before taking the write guard exactly for CallerKind::User and CallerKind::RepairFirewall on the Repair path")
+    cands = [x for x in prog.find(r"^Engine::query_for::\{closure#0\}$") if x.is_coroutine]
+    if len(cands) != 1:
+        ctx.fail(o, "(program)", "anchor missing: Engine::query_for (found %d)" % len(cands))
+        return
+    b = ctx.touch(cands[0])
+    rep = b.calls_to(r"Snapshot<C, Q>>::repair_transitive_firewall_callees$")
+    wg = b.calls_to(r"Snapshot<C, Q>>::get_write_guard$")
+    o.sites = len(rep) + len(wg)
+    if len(rep) != 1 or len(wg) != 1:
+        ctx.fail(o, Site(b, 0, 0), "anchor missing: repair_transitive_firewall_callees / get_write_guard in query_for (%d / %d)" % (len(rep), len(wg)))
+        return
+    allowed = set()
+    for sb, tb, v, c in df.variant_edges(b, "::CallerKind"):
+        if v == "otherwise":
+            continue
+        if rep[0].bb in b.reachable_fs([tb]) and b.site_dominates(Site(b, sb, 0), rep[0]):
+            allowed.add(_variant_name(prog, c.adt, v))
+    if allowed != {"User", "RepairFirewall"}:
+        ctx.fail(o, rep[0], "the firewalls below a stale node are repaired first for callers of kind %s (must be exactly User and RepairFirewall): a firewall that is itself "
+                 "being repaired would verify itself against unrepaired firewalls below it" % (sorted(allowed) or "none"))
+    if not df.dominated_by_equality(b, rep[0].bb, "eq", lambda x, y: True, prog):
+        ctx.fail(o, rep[0], "the firewall repair is not restricted to `slow_path == SlowPath::Repair`")
+    # ... and it happens before the node's own write guard is taken, on every path that takes the guard after a stale fast path
+    if not b.site_dominates(rep[0], wg[0]) and rep[0].bb not in b.reachable([0], removed_nodes=[wg[0].bb]):
+        ctx.fail(o, wg[0], "the write guard can be taken before the firewalls were repaired")
+
+
+def c01p(ctx):
+    """`dirtied_queries` de-duplicates propagation tasks *within* one session.  It must be emptied before each session's
+    propagation, otherwise a node dirtied in an earlier session is skipped (its callers keep clean edges) in this one."""
+    prog = ctx.prog
+    o = ctx.ob("C01.p", "commit_internal/dedupe-set-cleared-before-propagation", "K1",
+               "InputSession::commit_internal clears the per-session set of already-dirtied queries before it propagates")
+    b = ctx.touch(prog.coroutine_of("InputSession::commit_internal"))
+    clr = b.calls_to(r"Engine::<C>::clear_dirtied_queries$|Engine<C>>::clear_dirtied_queries$")
+    prop = b.calls_to(r"dirty_propagate_from_batch$")
+    o.sites = len(clr) + len(prop)
+    if not prop:
+        ctx.fail(o, Site(b, 0, 0), "anchor missing: dirty_propagate_from_batch in commit_internal")
+    elif not clr or not all(any(b.site_dominates(c_, p_) for c_ in clr) for p_ in prop):
+        ctx.fail(o, prop[0], "commit_internal propagates without first clearing `dirtied_queries`: nodes dirtied by an earlier session are skipped, their callers are never marked")
+    # the set itself is only ever used as `insert -> was it new?`
+    pt = ctx.touch(prog.coroutine_of("DirtyWorker::process_task"))
+    ins = pt.calls_to(r"DashSet::<K, S>::insert$")
+    o.sites += len(ins)
+    if len(ins) != 1:
+        ctx.fail(o, Site(pt, 0, 0), "anchor missing: the de-duplication insert in process_task")
+
+
 def _variant_name(prog, adt, v):
     try:
         return prog.adts[adt]["variants"][int(v)]["name"]
@@ -794,6 +850,8 @@ def run(ctx):
     ctx.run_clause("C01.l", c01l)
     ctx.run_clause("C01.m", c01m)
     ctx.run_clause("C01.n", c01n)
+    ctx.run_clause("C01.o", c01o)
+    ctx.run_clause("C01.p", c01p)
     ctx.run_clause("C01.j", c01j)
     ctx.run_clause("C01.i", c01i)
     for c, f in (("C01.a", c01a), ("C01.b", c01b), ("C01.c", c01c), ("C01.c", c01c_roles), ("C01.d", c01d), ("C01.e", c01e), ("C01.f", c01f), ("C01.g", c01g)):
